@@ -294,3 +294,20 @@ func (s *Sess) Shutdown() {
 }
 
 func time1(i int) time.Duration { return time.Duration(i+1) * 37 * time.Minute }
+
+// fixDirTimesUnder gives every directory at or below dir a fixed mtime that depends only on its relative path.
+func fixDirTimesUnder(dir string) {
+	var dirs []string
+	filepath.Walk(dir, func(p string, fi os.FileInfo, err error) error {
+		if err == nil && fi.IsDir() {
+			dirs = append(dirs, p)
+		}
+		return nil
+	})
+	sort.Sort(sort.Reverse(sort.StringSlice(dirs)))
+	for _, d := range dirs {
+		rel, _ := filepath.Rel(dir, d)
+		mt := baseTime.Add(-time.Duration(len(rel)+1) * time.Hour)
+		os.Chtimes(d, mt, mt)
+	}
+}
